@@ -11,7 +11,7 @@ VERIFICATION_MSGS = (
     'decreases not satisfied', 'possible bit shift', 'unreachable', 'recommendation not met',
     'loop invariant', 'might not be allowed', 'possible truncation', 'failed this',
     'could not prove termination', 'index out of bounds',
-    'cannot show invariant', 'bitvector assertion', 'trait method ensures', 'ensures not satisfied', 'requires not satisfied',
+    'cannot show invariant', 'bitvector assertion', 'precondition not met', 'trait method ensures', 'ensures not satisfied', 'requires not satisfied',
 )
 UNDECIDED_MSGS = ('resource limit', 'rlimit', 'timed out', 'incomplete', 'z3 ')
 
